@@ -500,7 +500,7 @@ pub fn run(ctx: &Ctx) -> Report {
         let strat = || {
             (0usize..5, 0usize..3, prop::collection::btree_set(0u16..120, 0..12)).prop_map(|(d, k, u)| Torn { drv: DRVS[d], kind: TKS[k], updates: u.into_iter().collect() })
         };
-        let (st, f) = run_proptest(ctx, "torn", 131, ctx.n(300_000, 4_000_000), strat, |c: &Torn, st| torn(c, st));
+        let (st, f) = run_proptest(ctx, "torn", 131, ctx.n(300_000, 100_000_000), strat, |c: &Torn, st| torn(c, st));
         stats.merge(st);
         failure = f;
     }
